@@ -772,12 +772,12 @@ pub fn run(opts: &Opts) {
             }
         }
     } else if filter {
-        let (cases, blocks) = if opts.thorough() { (600 * opts.scale, 30) } else { (60 * opts.scale, 20) };
+        let (cases, blocks) = if opts.thorough() { (2000 * opts.scale, 30) } else { (60 * opts.scale, 20) };
         for _ in 0..cases {
             gen_filter_case(&mut out, &mut rng, blocks);
         }
     } else {
-        let (cases, n_ops) = if opts.thorough() { (1500 * opts.scale, 40) } else { (150 * opts.scale, 25) };
+        let (cases, n_ops) = if opts.thorough() { (5000 * opts.scale, 40) } else { (150 * opts.scale, 25) };
         for c in 0..cases {
             gen_mmr_case(&mut out, &mut rng, n_ops, c % 3 == 2);
         }
